@@ -752,7 +752,33 @@ Proof.
     destruct (cbc_dec_length Db' Db_len iv packed Hiv) as [Hl _]. rewrite Hl. lia.
 Qed.
 
-(* any chain: delivered members have the stored CRCs (but the outcome may be a hang, see below) *)
+(* any chain behind AES, any key: an error (CrcError; Bad7zFile when the decoder runs dry before the declared
+   size; or the decoder's own error), or members with the stored CRCs.  Never anything else: in particular the
+   call returns (no Err EFuel) as long as the decoder itself does *)
+Lemma extract_members_err : forall (sizes crcs : list Z) (s : bytes) (e : err),
+  extract_members s sizes crcs = Err e -> e = ECrc \/ e = EBad7z.
+Proof.
+  induction sizes as [|n ns IH]; intros crcs s e E; [discriminate|].
+  destruct crcs as [|c cs]; cbn [extract_members] in E; [discriminate|].
+  destruct (blen s <? n); [injection E as <-; auto|].
+  destruct (crc32 (takeZ n s) =? c); [|injection E as <-; auto].
+  destruct (extract_members (dropZ n s) ns cs) as [rest|e'] eqn:Er; cbn [bind] in E; [discriminate|].
+  injection E as <-. exact (IH _ _ _ Er).
+Qed.
+
+Theorem wrong_password_any_chain (Db' : bytes -> bytes) (Dz : bytes -> res bytes) (iv packed : bytes)
+        (sizes crcs : list Z) :
+  match read_chain_folder Db' Dz iv packed sizes crcs with
+  | Ok gs => Forall2 (fun g c => crc32 g = c) gs (firstn (length gs) crcs)
+  | Err e => e = ECrc \/ e = EBad7z \/ Dz (fst (cbc_dec Db' iv packed)) = Err e
+  end.
+Proof.
+  unfold read_chain_folder. destruct (Dz _) as [s|e]; cbn [bind]; [|auto].
+  destruct (extract_members s sizes crcs) as [gs|e] eqn:E.
+  - exact (extract_members_crc _ _ _ _ E).
+  - destruct (extract_members_err _ _ _ _ E); auto.
+Qed.
+
 Theorem wrong_password_partial (Db' : bytes -> bytes) (Dz : bytes -> res bytes) (iv packed : bytes)
         (sizes crcs : list Z) (gs : list bytes)
   (H : read_chain_folder Db' Dz iv packed sizes crcs = Ok gs) :
@@ -762,19 +788,12 @@ Proof.
   exact (extract_members_crc _ _ _ _ H).
 Qed.
 
-(* "with a wrong password reading fails with an error" is FALSE of the faithful model for chains with a
-   decoder behind AES: garbage in which the decoder finds an early end of stream makes it return nothing
-   for ever, and Worker.decompress waits for ever (Err EFuel = no fuel suffices).  Replay: harness,
-   deflate+aes / lzma2+aes with a wrong password. *)
-Theorem wrong_password_hang_refuted :
-  exists (Db' : bytes -> bytes) (Dz : bytes -> res bytes) (iv packed : bytes) (sizes crcs : list Z),
-    (forall x, length x = 16%nat -> length (Db' x) = 16%nat) /\ length iv = 16%nat /\
-    blen packed mod 16 = 0 /\ total sizes <= blen packed /\
-    read_chain_folder Db' Dz iv packed sizes crcs = Err EFuel.
-Proof.
-  exists toyD, (fun _ => Ok []), ex_iv, (ex_plain 32), [24], [0].
-  split; [exact toy_Db_len|]. repeat split; vm_compute; congruence.
-Qed.
+(* a decoder that finds an early end of stream in the garbage (returns less than the declared size): the call
+   ends with Bad7zFile.  (Before repair 2499498 of /repo this very case made Worker.decompress spin for ever;
+   the harness found it with wrong passwords on deflate+aes and lzma2+aes archives.) *)
+Example wrong_password_decoder_runs_dry :
+  read_chain_folder toyD (fun _ => Ok []) ex_iv (ex_plain 32) [24] [0] = Err EBad7z.
+Proof. vm_compute. reflexivity. Qed.
 
 (* the right key delivers the originals *)
 Lemma extract_members_concat : forall (datas : list bytes) (tail : bytes),
